@@ -95,3 +95,25 @@ def load(rows, scratch, density="binomial", precision=400.0, G=5, outlier_prob=0
         with contextlib.redirect_stdout(io.StringIO()):
             data, samples = load_data(p, np.random.default_rng(0), 1e-4, 0.4, False, cluster_file=cf, density=density, grid_size=G, outlier_prob=outlier_prob, precision=float(precision))
     return data, samples
+
+
+def bb_conditioning(ref, alt, major, minor, normal, t, eps, density, precision, G):
+    """Floating-point conditioning of the beta-binomial evaluation at each grid point: the pmf is evaluated through
+    lgamma(b + n - x) with b = s - xi*s; when x = n and b is tiny, (b + n) - n carries an absolute error of about
+    ulp(n), i.e. a relative error ulp(n)/b on b and the same absolute error on the log-pmf.  Returned: (G,) array of
+    n / min(a, b) maximised over genotypes (0 for the binomial density); the checks allow 4.5e-16 times this on top of
+    their relative tolerance.  (Found by the thorough tier: depth 1, precision 0.05, error rate 1e-6 gives 1.7e-9.)"""
+    out = np.zeros(G)
+    if density == "binomial":
+        return out
+    d = ref + alt
+    for i, f in enumerate(np.linspace(0, 1, G)):
+        worst = 0.0
+        for cr, cv, mv in genotypes(major, minor, normal, eps):
+            w = [(1 - t) * normal, t * (1 - f) * cr, t * f * cv]
+            xi = (w[0] * eps + w[1] * eps + w[2] * mv) / sum(w)
+            a = xi * precision
+            b = precision - a
+            worst = max(worst, max(d, 1) / max(min(a, b), 1e-300))
+        out[i] = worst
+    return out
